@@ -182,7 +182,7 @@ def build(x):
     pieces = [PRELUDE, c, re_, 'enum NextStrategy<IndexFn> { OnlyOne, Random, GroupBy(IndexFn), All }\n', bs, ep, st, SPEC_IMPL]
     ss = x.method(F, 'RoutingEnd', 'setup_endpoints')
     ss.add_spec(SETUP_SPEC)
-    ss.sub('V-SUBST', r'self\.senders\.sort_unstable_by_key\(\|s\| s\.0\);', 'sort_senders_by_endpoint(&mut self.senders);', detail='sort_unstable_by_key(|s| s.0) -> contracted stub (permutation)', must=True)
+    ss.sub('V-SUBST', r'self\.senders\.sort_unstable_by_key\(\|(\w+)\| \1\.0\);', 'sort_senders_by_endpoint(&mut self.senders);', detail='sort_unstable_by_key(|s| s.0) -> contracted stub (permutation)', must=True)
     rx = re.compile(r'let mut (?P<bm>\w+): HashMap<BlockId, Vec<usize>> =\s*self\s*\.senders\s*\.iter\(\)\s*\.enumerate\(\)\s*\.fold\(HashMap::new\(\), \|mut (?P<m>\w+), \((?P<i>\w+), (?P<s>\w+)\)\| \{(?P<body>.*?)\n\s*(?P=m)\s*\}\);', re.S)
     m = rx.search(ss.text)
     if not m:
@@ -193,7 +193,7 @@ def build(x):
     ss.note('V-ITER', 1, '`V.iter().enumerate().fold(HashMap::new(), |mut map, (i, s)| { B; map })` -> index loop running B (verbatim, `.entry(k).or_default()` -> entry_or_default(k)) over a map-view model')
     ss.bind('block_map', r'let mut (\w+) = \{ let mut \w+ = KMap::new\(\)')
     ss.sub('V-ITER', r'for \((\w+), (\w+)\) in self\.routes\.drain\(\.\.\) \{', DRAIN_LOOP, detail='`for (b, f) in self.routes.drain(..) {` -> pop-front loop', must=True)
-    ss.sub('V-COMB', r'let (\w+) = (\w+)\s*\.remove\(&(\w+)\)\s*\.expect\("[^"]*"\);', r'let \1 = match \2.remove(&\3) { Some(v) => v, None => panic_no_return_val() };',
+    ss.sub('V-COMB', r'let (\w+)(?:\s*:\s*[^=;]+?)? = (\w+)\s*\.remove\(&(\w+)\)\s*\.expect\("[^"]*"\);', r'let \1 = match \2.remove(&\3) { Some(v) => v, None => panic_no_return_val() };',
            detail='`.expect(msg)` -> `match .. { Some(v) => v, None => panic }` (definition of expect; a panic does not return)', must=True)
     ss.desugar_assert()
     ss.sub('V-SPEC', r'(\{ let __c: bool = self\.routes\.is_empty\(\))', r'; proof { assert(self.endpoints@.len() == __r0.len()); } \1', detail='statement separator after the loop')
